@@ -33,7 +33,7 @@ SPEC = {'id': 'C13',
              'today; true: kept). Not modelled: protocolName/protocolType pass-through, OffsetFetch/DescribeGroups/ListGroups/DeleteGroups, store errors, the '
              "ticker's real-time jitter.",
  'search_n': 1500,
- 'theorems': ['C13_fenced', 'C13_offsets_only_by_current_commit', 'C13_generation_monotone', 'C13_join_reports_generation', 'C13_fenced_under_store_faults', 'C13_generation_monotone_in_memory_under_store_faults', 'C13_cluster_is_one_coordinator', 'C13_fenced_any_broker', 'C13_nonvacuous'],
+ 'theorems': ['C13_fenced', 'C13_offsets_only_by_current_commit', 'C13_generation_monotone', 'C13_join_reports_generation', 'C13_fenced_under_store_faults', 'C13_generation_monotone_in_memory_under_store_faults', 'C13_cluster_is_one_coordinator', 'C13_fenced_any_broker', 'C13_fenced_across_failover_under_store_faults', 'C13_fenced_across_failover_needs_synced', 'C13_cluster_offsets_only_by_current_commit', 'C13_nonvacuous'],
  'level_text': 'Machine-checked Coq theorems: in every state a sync/heartbeat/commit whose (member, generation) is not (current member, current generation) is '
                'answered with an error and changes no committed offset; offsets change only through a commit of a current member answered NONE; along every '
                'history and continuation during which the group exists (incl. expiry, leaves, failover) the generation never decreases and join replies report '
